@@ -1,7 +1,7 @@
 """C16 — Reopen and rebuild preserve everything observable."""
 from ._store import run_store
 
-THEOREMS = ['reopen_preserves', 'rebuild_preserves_markers', 'rebuild_preserves_events', 'rebuild_getById', 'rebuild_compacts', 'rebuild_inv']
+THEOREMS = ['reopen_preserves', 'rebuild_preserves_markers', 'rebuild_preserves_events', 'rebuild_getById', 'rebuild_compacts', 'rebuild_inv', 'spec_rebuild_preserves']
 
 
 def run():
